@@ -15,7 +15,7 @@ def write_value(S, sm, x, suffix):
     bv = nd.ctx.bv
     out = []
     for s_ in nd.block["s"]:
-        if s_["k"] == "assign" and smod._chain_ends(s_["p"], suffix):
+        if s_["k"] == "assign" and smod._chain_ends(s_["p"], suffix, bv):
             out.append(terms.render(bv, bv._trace_rv(s_["r"], None, 0), sm.w, {}))
     t = nd.term
     if t["k"] == "call" and t.get("name") in ("add_assign", "sub_assign") and not out:
@@ -37,8 +37,7 @@ def result_switch_edges(S, sm, ctx, head_contains, variant):
 
 
 def is_ping_ctx(ctx):
-    names = set(t.get("name") for _, t in ctx.bv.calls() if (t.get("callee") or "").startswith("request_builder::RequestBuilder"))
-    return "add_ping" in names and "add_update_check" not in names and "add_event" not in names
+    return lib.is_ping_body(ctx.bv)
 
 
 def run(F, R):
@@ -180,16 +179,23 @@ def run(F, R):
     R.rule("C08-R4", "each context key has one typed writer and one typed reader with paired units; Context::load is awaited before the state machine exists")
     ku = keys.key_users(W, c)
     table = {
-        "last_update_time": ("set_option_int", "and_then(param1.0.schedule.last_update_time, time::PartialComplexTime::checked_to_micros_since_epoch)", "get_time"),
-        "consecutive_failed_update_checks": ("set_option_int", "phi(None{}|Some{cast<IntToInt>(param1.0.state.consecutive_failed_update_checks)})", "get_int"),
+        "last_update_time": ("set_option_int", "?and_then(param1.0.schedule.last_update_time, time::PartialComplexTime::checked_to_micros_since_epoch)", "get_time"),
+        "consecutive_failed_update_checks": ("set_option_int", "None|Some{param1.0.state.consecutive_failed_update_checks}", "get_int"),
     }
     for key, (wname, wval, rname) in table.items():
         us = [k for k in ku if k["key_val"] == key]
         wr = [k for k in us if k["name"].startswith("set") or k["name"].startswith("remove")]
         rd = [k for k in us if k["name"].startswith("get")]
         if R.floor("C08-R4", "users of key " + key, min(len(wr), len(rd)), 1):
-            R.check("C08-R4", "writer:" + key, len(wr) == 1 and wr[0]["name"] == wname and wr[0]["value"] == wval and _in_fn_bv(W, wr[0]["bv"], "persist", "update_check::Context"),
-                    "%s(%s)" % (wname, wval), "key %s is written by %s" % (key, [(k["name"], k["value"], k["loc"]) for k in wr]))
+            from .. import optnorm
+            wvals = []
+            for k_ in wr:
+                vt_ = k_["bv"].trace_op(k_["t"]["args"][2]) if len(k_["t"].get("args", [])) > 2 else None
+                d_ = optnorm.option_desc(W, k_["bv"], vt_) if vt_ is not None else k_["value"]
+                # a lossless widening written `x as i64` or `i64::from(x)` is the same value
+                wvals.append(d_.replace("cast<IntToInt>(param1.0.state.consecutive_failed_update_checks)", "param1.0.state.consecutive_failed_update_checks"))
+            R.check("C08-R4", "writer:" + key, len(wr) == 1 and wr[0]["name"] == wname and wvals[0] == wval and _in_fn_bv(W, wr[0]["bv"], "persist", "update_check::Context"),
+                    "%s(%s)" % (wname, wval), "key %s is written by %s" % (key, [(k["name"], v_, k["loc"]) for k, v_ in zip(wr, wvals)]))
             R.check("C08-R4", "reader:" + key, len(rd) == 1 and rd[0]["name"] == rname and _in_fn_bv(W, rd[0]["bv"], "load", "update_check::Context"), rname, "key %s is read by %s" % (key, [(k["name"], k["loc"]) for k in rd]))
     # zero is stored as "absent"
     pb = [b for b in c.bodies if b["kind"] == "coroutine" and _in_fn_bv(W, BV.of(b), "persist", "update_check::Context")]
@@ -202,6 +208,11 @@ def run(F, R):
                 t = strip(si.term)
                 if t[0] == "binop" and t[1] == "Eq" and "consecutive_failed_update_checks" in fmt_t(t[2]) and lib.term_const(c, t[3]) == 0:
                     ok = True
+            tt_ = pv.blocks[bi]["t"]
+            if tt_["k"] == "switch" and pv.switch_subject(bi) is None and pv.crate.types[tt_["ot"]]["s"] != "bool":
+                # `match count { 0 => None, n => Some(..) }`: an integer switch with an arm for 0
+                if "consecutive_failed_update_checks" in lib.apath(pv.trace_op(tt_["o"])) and any(a_[0] == 0 for a_ in tt_.get("arms", [])):
+                    ok = True
         R.check("C08-R4", "zero-is-absent", ok, "0 failed checks is stored as an absent key", "the zero test before storing the failure counter is gone")
     lb = [b for b in c.bodies if b["kind"] == "coroutine" and _in_fn_bv(W, BV.of(b), "load", "update_check::Context")]
     if R.floor("C08-R4", "Context::load body", len(lb), 1):
@@ -212,7 +223,10 @@ def run(F, R):
             if x[0] == "agg" and x[2] == "common::ProtocolState::ProtocolState":
                 got["fc"] = terms.render(lv, x[3][x[4].index("consecutive_failed_update_checks")], W, {})
         exp = "unwrap_or_default(try_into::<u32>(unwrap_or(poll(get_int(param1.0, 'consecutive_failed_update_checks'), get_context(param2))@Ready.0, 0)))"
-        R.check("C08-R4", "reader-unit:consecutive_failed_update_checks", got.get("fc") == exp, got.get("fc"), "failure counter restored as %s, expected %s" % (got.get("fc"), exp))
+        fc_ = got.get("fc") or ""
+        # the stored integer narrowed to u32 with 0 for a missing or unrepresentable value, nothing else done to it
+        ok_fc = "get_int(param1.0, 'consecutive_failed_update_checks')" in fc_ and ("try_into::<u32>(" in fc_ or "u32::try_from(" in fc_) and not any(w_ in fc_ for w_ in ("Add", "Sub", "Mul", "Div", "Rem", "Shl", "Shr", "cast<")) and (fc_.startswith("unwrap_or_default(") or (fc_.startswith("unwrap_or(") and fc_.endswith(", 0)")))
+        R.check("C08-R4", "reader-unit:consecutive_failed_update_checks", ok_fc, fc_, "failure counter restored as %s, expected the stored integer narrowed to u32 (0 when missing or out of range)" % fc_)
         s_ = terms.render(lv, ret, W, {})
         R.check("C08-R4", "reader-unit:last_update_time", "last_update_time(builder(), map(poll(get_time(param1.0, 'last_update_time'), get_context(param2))@Ready.0, time::PartialComplexTime::Wall))" in s_, "last_update_time <- get_time(key).map(Wall)", "last_update_time is not restored from get_time(key).map(Wall): " + s_[:200])
     bco = W.bv(sm.build_co)
